@@ -18,7 +18,7 @@
 
 void MatrixAppendUICol(matrix *m, uivector *col);   /* public function, missing from matrix.h (MatrixAppendUIRow is declared twice there) */
 
-static long ncases(int tier) { return tier ? 200000 : 2500; }
+static long ncases(int tier) { if (getenv("VERIF_VALGRIND")) return 2000; return tier ? 200000 : 2500; }
 
 #define POOL 4
 #define MAXN 64
@@ -267,7 +267,7 @@ static void op_strvector(vh_ctx *c)
     case 5: if (s->n > 0) { size_t ix = (size_t)vh_int(c, 0, (long)s->n - 1); snprintf(buf, sizeof buf, "set-%.0f", fresh()); OP("S%zu.setStr(%zu)", k, ix); setStr(SV[k], ix, buf); strcpy(s->v[ix], buf); if (strcmp(getStr(SV[k], ix), buf)) { vh_fail(c, "strvector|get-after-set", "getStr differs"); g_bad = 1; } OBSOP("strvector_setget"); } break;
     case 6: { size_t a = (size_t)vh_int(c, 0, POOL - 1), d = (size_t)vh_int(c, 0, POOL - 1); if (SSV[a].live && d != k && d != a && s->n + SSV[a].n < 20) {
               strvector *e; OP("S%zu=extend(S%zu,S%zu)", d, k, a); e = StrVectorExtend(SV[k], SV[a]); if (SSV[d].live) DelStrVector(&SV[d]); SV[d] = e; SSV[d].live = 1; SSV[d].n = s->n + SSV[a].n;
-              for (i = 0; i < s->n; i++) strcpy(SSV[d].v[i], s->v[i]); for (i = 0; i < SSV[a].n; i++) strcpy(SSV[d].v[s->n + i], SSV[a].v[i]);
+              { for (i = 0; i < s->n; i++) strcpy(SSV[d].v[i], s->v[i]); } { for (i = 0; i < SSV[a].n; i++) strcpy(SSV[d].v[s->n + i], SSV[a].v[i]); }
               if (SSV[d].n) { snprintf(buf, sizeof buf, "mut-%.0f", fresh()); setStr(SV[d], 0, buf); strcpy(SSV[d].v[0], buf); }    /* mutate the result: operands must not change */
               OBSOP("strvector_extend"); } break; }
     case 7: { strvector *tok; OP("S%zu.split", k); initStrVector(&tok); SplitString("  alpha;beta;;gamma ", ";", tok);
@@ -318,7 +318,7 @@ static void op_matrix(vh_ctx *c)
               if (!rw || !cl || rw->size != s->c || cl->size != s->r) { vh_fail(c, "matrix|getRowCol-shape", "row/column vector has the wrong size"); g_bad = 1; }
               else { for (j = 0; j < s->c; j++) if (rw->data[j] != s->v[a][j]) { vh_fail(c, "matrix|getRow-value", "row copy differs"); g_bad = 1; break; } for (i = 0; i < s->r; i++) if (cl->data[i] != s->v[i][b]) { vh_fail(c, "matrix|getColumn-value", "column copy differs"); g_bad = 1; break; }
                      rw->data[0] = -1; cl->data[0] = -1; }     /* copies: mutating them must not reach the matrix */
-              if (rw) DelDVector(&rw); if (cl) DelDVector(&cl); OBSOP("matrix_get_row_col"); } break;
+              { if (rw) DelDVector(&rw); } { if (cl) DelDVector(&cl); } OBSOP("matrix_get_row_col"); } break;
     case 15: { size_t d = (size_t)vh_int(c, 0, POOL - 1); if (d != k && SMX[d].live) { rel = (SMX[d].r == 0 && SMX[d].c == 0 && MX[d]->data == NULL) ? "empty-dst" : (SMX[d].r == s->r && SMX[d].c == s->c) ? "same-shape-dst" : "different-shape-dst";
               OP("M%zu.copyTo(M%zu,%s,%zux%zu->%zux%zu)", k, d, rel, s->r, s->c, SMX[d].r, SMX[d].c); MatrixCopy(MX[k], &MX[d]); SMX[d].r = s->r; SMX[d].c = s->c; memcpy(SMX[d].v, s->v, sizeof s->v);
               if (s->r && s->c) { double v = fresh(); MX[d]->data[0][0] = v; SMX[d].v[0][0] = v; }
